@@ -1,7 +1,7 @@
 (* C18/ProofsHC.v -- half-complex transforms: np.fft.irfft(np.fft.rfft(x), n) = x for real x of
    every length (both parities), and its N-d lift (rfftn / irfftn); real-valued round trips. *)
 From Coq Require Import ZArith Reals Lra Lia List Bool Arith.
-From Verif Require Import Base.Num Lib.Axis C18.Model C18.ProofsGrid C18.ProofsDFT C18.ProofsCx C18.ProofsAxis C18.ProofsFT.
+From Verif Require Import Base.Num Lib.Axis Gen.FtFormulas C18.Model C18.ProofsGrid C18.ProofsDFT C18.ProofsCx C18.ProofsAxis C18.ProofsFT.
 Import ListNotations.
 Local Open Scope R_scope.
 
@@ -333,7 +333,7 @@ Proof.
 Qed.
 
 Lemma pre_fac_shifted_real n sg j : is_real (pre_fac cispi n true sg j).
-Proof. unfold pre_fac. destruct (Nat.even j); unfold is_real; cx_simpl; lra. Qed.
+Proof. unfold pre_fac. destruct (Nat.even j); unfold is_real, of_re; cbn [snd]; reflexivity. Qed.
 
 Lemma pre_facs_real (g : list Raxis) axes shifts sg shape i :
   all_true shifts = true -> is_real (tensor_fac shape (pre_facs cispi g axes shifts sg) i).
@@ -422,8 +422,9 @@ Proof.
   (* 2. inverse DFT o DFT on the (real) pre-processed array *)
   set (pre := tensor_mult shape (pre_facs cispi g axes shifts sg) x).
   assert (Hpre_len : length pre = prodn shape) by (unfold pre; rewrite tensor_mult_length; exact Hx).
-  assert (Hmid : dft_inverse cispi (- sg) hc shape axes (dft_forward cispi sg hc shape axes pre) = pre).
-  { unfold dft_inverse, dft_forward. destruct hc.
+  assert (Hmid : ftc_inverse cispi (- sg) hc shape axes (ftc_forward cispi sg hc shape axes pre) = pre).
+  { rewrite (ftc_forward_unfold cispi) by exact Hs.
+    rewrite (ftc_inverse_unfold cispi) by (apply is_sign_opp; exact Hs). destruct hc.
     - apply (irfftn_rfftn cispi cis_add cis_0 cis_2 cis_prim cis_conj); try assumption.
       + rewrite <- Hnth0 by exact Hlast. apply Hax. exact Hlast.
       + unfold pre. apply tensor_mult_real; [|exact Hreal].
